@@ -267,6 +267,13 @@ func (g *Gen) Sweep(i int) *Node {
 	nl := NonLeafKinds()
 	outer := nl[(i/len(nl))%len(nl)]
 	inner := nl[i%len(nl)]
+	// kinds the monitor has excluded are replaced by a plain stack layer
+	if !g.allowed(outer) {
+		outer = "withstack"
+	}
+	if !g.allowed(inner) {
+		inner = "withstack"
+	}
 	li := (i + g.R.Intn(len(LeafKinds))) % len(LeafKinds)
 	for !g.allowed(LeafKinds[li]) {
 		li = (li + 1) % len(LeafKinds)
